@@ -5,8 +5,8 @@ import (
 	"go/ast"
 	"go/constant"
 	"go/token"
-	"os"
 	"go/types"
+	"os"
 	"sort"
 	"strings"
 
